@@ -12,7 +12,7 @@ from sa.engine.guards import path_conditions
 from sa.engine.loader import AnalysisError, dotted, norm, short, walk_own
 from sa.engine.mustcall import MustPass
 from sa.engine.report import Finding, RuleReport
-from sa.rules.common import X, extractor_entries, raised_class
+from sa.rules.common import X, exception_family, extractor_entries, raised_class
 
 ENC = X + "util/encryption.py"
 ARCH = X + "archive_extractor.py"
@@ -39,7 +39,7 @@ NOT_DECIDED = ["detector correctness on every container instance (stream names a
                "equality of extracted content for PDFs with an empty user password (C20-PATCH checks only that every AES binding is installed)"]
 TRUSTED = ["CFG / must-pass-through summaries (sa/engine/mustcall.py)", "zipfile raise sites are read from the interpreter's own zipfile source",
            "format constants: [MS-DOC] 2.5.1 FibBase.fEncrypted, APPNOTE 4.4.4 bit 0, [MS-XLS] FILEPASS 0x002F, [MS-OFFCRYPTO] 2.3.4.x stream names, 7z coder 06F10701"]
-FLOORS = {"C08-DET": 20, "C08-OVER": 14, "C08-CONST": 8, "C08-PATCH": 15}
+FLOORS = {"C08-DET": 20, "C08-OVER": 14, "C08-CONST": 8, "C08-PATCH": 15, "C08-SAME": 1}
 
 DETECTOR_CALLS = {"is_ooxml_encrypted", "is_odf_encrypted", "is_xls_encrypted", "is_ppt_encrypted", "_is_epub_encrypted", "needs_password"}
 FORMAT_DETECTOR = {
@@ -468,6 +468,65 @@ def rule_const(ctx: Ctx) -> RuleReport:
     return rep
 
 
+def rule_same(ctx: Ctx) -> RuleReport:
+    """'a PDF encrypted with the empty user password extracts the same content as its unencrypted original': after the empty
+    password has been accepted, nothing on the extraction path may depend on the fact that the file was encrypted."""
+    PDFX = X + "pdf/pdf_extractor.py"
+    rep = RuleReport("C08-SAME", "PDF: once the empty user password is accepted, no extraction step is switched off or altered by a test that derives from reader.is_encrypted")
+    m = ctx.p.module(PDFX)
+    family = exception_family(ctx)
+    deciders = {}
+    for fi in m.functions.values():
+        reads = [a for a in walk_own(fi.node) if isinstance(a, ast.Attribute) and a.attr == "is_encrypted"]
+        if not reads:
+            continue
+        raises = [r for r in walk_own(fi.node) if isinstance(r, ast.Raise) and raised_class(r) in family]
+        rets = [r for r in walk_own(fi.node) if isinstance(r, ast.Return) and r.value is not None]
+        if rets and not raises:
+            deciders[fi.qual] = fi
+        rep.unit(fi.key)
+    n = 0
+    for fi in m.functions.values():
+        tainted = {}
+        for a in walk_own(fi.node):
+            if isinstance(a, ast.Assign) and len(a.targets) == 1 and isinstance(a.targets[0], ast.Name) and isinstance(a.value, ast.Call):
+                for g in resolve_call(ctx.p, fi, a.value).funcs:
+                    if g.qual in deciders:
+                        tainted[a.targets[0].id] = g
+        if not tainted:
+            continue
+        for x in walk_own(fi.node):
+            test, gated = None, []
+            if isinstance(x, ast.IfExp):
+                test, gated = x.test, [x.body, x.orelse]
+            elif isinstance(x, ast.If):
+                test, gated = x.test, x.body + x.orelse
+            if test is None:
+                continue
+            names = {nm.id for nm in ast.walk(test) if isinstance(nm, ast.Name)} & set(tainted)
+            if not names:
+                continue
+            calls = [c for g_ in gated for c in ast.walk(g_) if isinstance(c, ast.Call) and resolve_call(ctx.p, fi, c).funcs and not (dotted(c.func) or "").startswith("logger.")]
+            if not calls:
+                continue
+            n += 1
+            dec = tainted[sorted(names)[0]]
+            consts = []
+            for c in walk_own(dec.node):
+                if isinstance(c, ast.Compare):
+                    for e in [c.left] + c.comparators:
+                        v = ctx.folder.fold(dec.module, e)
+                        if isinstance(v, int) and not isinstance(v, bool) and isinstance(e, ast.Name):
+                            consts.append(f"{e.id}={v}")
+            rep.fail(Finding("C08-SAME", PDFX, fi.qual, f"{dotted(calls[0].func)} gated by {dec.qual} [{', '.join(consts)}]",
+                             f"`{short(calls[0], 50)}` runs only when `{short(test, 40)}` allows it, and that flag comes from {dec.qual}, which reads reader.is_encrypted ({', '.join(consts) or 'no size constant'}): an empty-password PDF is extracted differently from its unencrypted original", line=x.lineno))
+    if not deciders:
+        rep.ok({"is_encrypted": "read only by the rejecting detector"})
+    elif n == 0:
+        rep.ok({"deciders": sorted(deciders), "gated_calls": 0})
+    return rep
+
+
 def rule_patch(ctx: Ctx) -> RuleReport:
     """Empty-password AES PDFs: every pypdf module must receive every AES binding (same sibling rule as C20-PATCH)."""
     from sa.rules.c20 import rule_patch as rp
@@ -489,4 +548,4 @@ def rule_patch(ctx: Ctx) -> RuleReport:
     return rep
 
 
-RULES = [rule_det, rule_over, rule_const, rule_patch]
+RULES = [rule_det, rule_over, rule_const, rule_same, rule_patch]
